@@ -17,6 +17,6 @@ func VH_C08_code_methods(L int) {
 	}
 	ids, err := ParseContractMethods(b)
 	zzvrt.Assert("ids-or-error", err != nil || ids != nil || len(ids) == 0)
-	zzvrt.Cover("parsed", err == nil)
+	zzvrt.Cover("refused", err != nil)
 	zzvrt.ObserveBool("err", err != nil)
 }
